@@ -224,15 +224,17 @@ def case_attack_from_graph(EoN, p):
     return None
 
 
-def _entry_call(EoN, name, G, tau, gamma, rho, tmax, tcount):
-    return O.call(getattr(EoN, name), G, tau, gamma, rho=rho, tmax=tmax, tcount=tcount)
+def _entry_call(EoN, name, G, tau, gamma, rho, tmax, tcount, tmin=0):
+    # tmax is the LENGTH of the window: the limiting identities are time-translation invariant, so a start time tmin != 0
+    # must give the same curves shifted (a solver that ignores tmin does not)
+    return O.call(getattr(EoN, name), G, tau, gamma, rho=rho, tmin=tmin, tmax=tmin + tmax, tcount=tcount)
 
 
 def case_tau0(EoN, p):
     """tau = 0: I(t) = I(0) exp(-gamma t); S constant (SIR) / S + I constant (SIS)"""
     import numpy as np
     G = O.graph_from_desc(p['graph']); N = G.order()
-    st, r = _entry_call(EoN, p['entry'], G, 0.0, p['gamma'], p['rho'], p['tmax'], p['tcount'])
+    st, r = _entry_call(EoN, p['entry'], G, 0.0, p['gamma'], p['rho'], p['tmax'], p['tcount'], p.get('tmin', 0))
     if st != 'ok':
         return 'CRASH ' + r
     t, S, I = r[0], r[1], r[2]
@@ -257,8 +259,8 @@ def case_gamma0(EoN, p):
     """gamma = 0: SIS_x and SIR_x give the same S(t)"""
     import numpy as np
     G = O.graph_from_desc(p['graph']); N = G.order()
-    a = _entry_call(EoN, 'SIS_' + p['model'], G, p['tau'], 0.0, p['rho'], p['tmax'], p['tcount'])
-    b = _entry_call(EoN, 'SIR_' + p['model'], G, p['tau'], 0.0, p['rho'], p['tmax'], p['tcount'])
+    a = _entry_call(EoN, 'SIS_' + p['model'], G, p['tau'], 0.0, p['rho'], p['tmax'], p['tcount'], p.get('tmin', 0))
+    b = _entry_call(EoN, 'SIR_' + p['model'], G, p['tau'], 0.0, p['rho'], p['tmax'], p['tcount'], p.get('tmin', 0))
     if a[0] != 'ok':
         return 'CRASH SIS_%s %s' % (p['model'], a[1])
     if b[0] != 'ok':
@@ -481,16 +483,16 @@ def oracle_cases(rng, tier):
     if thorough:
         graphs += [O.graph_desc(O.labelled(O.hetero_graph(rng, 16), rng)), O.graph_desc(O.labelled(O.regular_graph(rng, 4, 9), rng)),
                    O.graph_desc(O.labelled(O.regular_graph(rng, 2, 8), rng))]
-    for dg in graphs:
-        rho = rng.choice([0.125, 0.25]); gam = rng.choice([0.5, 1.0, 1.5])
+    for gi, dg in enumerate(graphs):
+        rho = rng.choice([0.125, 0.25]); gam = rng.choice([0.5, 1.0, 1.5]); tmin0 = [0, 2.5, -1.5][gi % 3]
         regular = len({d for _, d in O.graph_from_desc(dg).degree()}) == 1
         for e in O.GRAPH_SIR + O.GRAPH_SIS:
             if regular and e == 'SIS_super_compact_pairwise_from_graph':
                 continue      # its closure divides by <k^2> - <k>^2, which is 0 on a regular graph: outside the model's domain
-            cases.append(('%s/tau0' % e, 'tau0', {'entry': e, 'graph': dg, 'gamma': gam, 'rho': rho, 'tmax': 3.0, 'tcount': 7}))
+            cases.append(('%s/tau0' % e, 'tau0', {'entry': e, 'graph': dg, 'gamma': gam, 'rho': rho, 'tmin': tmin0, 'tmax': 3.0, 'tcount': 7}))
         for m in ('individual_based', 'pair_based', 'homogeneous_meanfield_from_graph', 'homogeneous_pairwise_from_graph', 'heterogeneous_meanfield_from_graph',
                   'heterogeneous_pairwise_from_graph', 'compact_pairwise_from_graph', 'effective_degree_from_graph', 'compact_effective_degree_from_graph'):
-            cases.append(('SIS_SIR_%s/gamma0' % m, 'gamma0', {'model': m, 'graph': dg, 'tau': rng.choice([0.25, 0.5]), 'rho': rho, 'tmax': 3.0, 'tcount': 7}))
+            cases.append(('SIS_SIR_%s/gamma0' % m, 'gamma0', {'model': m, 'graph': dg, 'tau': rng.choice([0.25, 0.5]), 'rho': rho, 'tmin': tmin0, 'tmax': 3.0, 'tcount': 7}))
     return cases
 
 
